@@ -37,6 +37,7 @@ def replay_case(args):
     fp = use_repo()
     import pandas as pd
     d = os.path.join(base, "c%d" % cid)
+    shutil.rmtree(d, ignore_errors=True)      # a re-run of this job (after a time-out) starts clean
     os.makedirs(d)
     out = {"cid": cid, "viol": None, "evals": 1, "mode": mode}
     try:
